@@ -4,6 +4,7 @@ recording the progress values of the real file readers and the maps of real grou
 the same data, plus the property oracle on the recorded files of tests/data, synthetic HDF5 files, folders
 and in-memory maps of many shapes / scan orders / fit states."""
 import json
+import os
 import math
 import pathlib
 import shutil
@@ -228,7 +229,8 @@ def loading(ctx):
     try:
         nfold = 5 if ctx.tier == "quick" else 40
         for i in range(nfold):
-            root = tdir / f"folder{i}"
+            # (every other folder lies below a directory whose name starts with a dot, e.g. a share mounted there)
+            root = (tdir / ".afm-share" / f"folder{i}") if i % 2 else (tdir / f"folder{i}")
             (root / "sub").mkdir(parents=True)
             chosen = rng.sample(files, rng.randint(2, 5))
             if not any(c.name in maps or "reference" in c.name for c in chosen):
@@ -288,6 +290,26 @@ def loading(ctx):
                                                    if f == pathlib.Path(p).name] for p, _ in rp.files]})
             expect.append(("load", rep["input"], [f"{f}#{e}" for f, e in seq]))
             load_all_ways(ctx, root, (total, False), label=f"folder{i}:" + ",".join(sorted(counts)))
+            # the same folder named by a relative path through its sub-folder ("..", as str and as Path)
+            cwd = os.getcwd()
+            try:
+                os.chdir(root / "sub")
+                for spelled in ("..", pathlib.Path(".."), "../sub/.."):
+                    with warnings.catch_warnings():
+                        warnings.simplefilter("ignore")
+                        try:
+                            rel = [ident(x) for x in read.load_data(spelled)]
+                        except BaseException as e:  # noqa
+                            rel = "raises " + repr(e)
+                    ctx.case({"folder": sorted(counts), "path": str(spelled)}, nontrivial=f"rel:{i}:{spelled}",
+                             bucket=["load=folder-relative-path"])
+                    if rel != seq:
+                        ctx.violation("relative-path-differs", f"load_data({spelled!r}) (relative to a sub-folder) returns "
+                                      f"{len(rel) if isinstance(rel, list) else rel} curves, the absolute path {len(seq)}",
+                                      {"input": {**rep["input"], "path": str(spelled)}})
+                        break
+            finally:
+                os.chdir(cwd)
             shutil.rmtree(root)
     finally:
         shutil.rmtree(tdir, ignore_errors=True)
